@@ -183,7 +183,20 @@ static void interp(int me, int depth)
             cmi_coroutine_exit(msg);
             viol("C03", "exit-returned", "cmi_coroutine_exit returned");
         } else if (pis(l, "STOP")) {
-            if (c == me || co[c].status != ST_RUNNING) continue;
+            if (c == me) {
+                /* stopping oneself: like exit, the value becomes the exit value and control goes to the parent (not to the last caller) */
+                if (me == MAINI) continue;
+                const int t = co[me].parent;
+                if (t < 0 || co[t].status != ST_RUNNING) continue;
+                TR3("stop-self", me, t, at);
+                PROBE("coro.stop_self");
+                if (co[me].caller != co[me].parent) PROBE("coro.stop_self_caller_differs_from_parent");
+                do_exit_switch(me, msg);
+                cmi_coroutine_stop(co[me].cp, msg);
+                viol("C03", "exit-returned", "cmi_coroutine_stop on the running coroutine returned");
+                continue;
+            }
+            if (co[c].status != ST_RUNNING) continue;
             TR2("stop", me, c);
             PROBE("coro.stop_other");
             co[c].status = ST_FINISHED; co[c].exitv = msg; co[c].depth = 0;
@@ -264,8 +277,8 @@ static void co_run(const plan *p)
 {
     cmb_logger_flags_off(CMB_LOGGER_INFO | CMB_LOGGER_WARNING);
     P = p; pc = 0; stop_all = false; nswitch = 0; shim_bad = 0;
-    nco = 3; int szsel = 0;
-    for (int i = 0; i < p->n; i++) if (pis(&p->l[i], "INIT")) { nco = 2 + (int)((uint64_t)pa(&p->l[i], 0) % 7); szsel = (int)((uint64_t)pa(&p->l[i], 1) % 4); break; }
+    nco = 3; int szsel = 0; bool nullexit = false;
+    for (int i = 0; i < p->n; i++) if (pis(&p->l[i], "INIT")) { nco = 2 + (int)((uint64_t)pa(&p->l[i], 0) % 7); szsel = (int)((uint64_t)pa(&p->l[i], 1) % 4); nullexit = (pa(&p->l[i], 2) & 1) != 0; break; }
     MAINI = nco;
     memset(co, 0, sizeof co);
     static const size_t sizes[] = { 64 * 1024, 64 * 1024 + 8, 49152 + 24, 98304 + 4 };
@@ -273,7 +286,8 @@ static void co_run(const plan *p)
     for (int i = 0; i < nco; i++) {
         co[i].cp = cmi_coroutine_create();
         co[i].stacksz = sizes[szsel] + (size_t)(i & 1) * 8u;
-        cmi_coroutine_initialize(co[i].cp, (cmi_coroutine_func *)coro_entry_stub, &co[i], coro_exit_stub, co[i].stacksz);
+        /* no exit function given: the library's own cmi_coroutine_exit is what a return from the coroutine function reaches */
+        cmi_coroutine_initialize(co[i].cp, (cmi_coroutine_func *)coro_entry_stub, &co[i], (nullexit && (i & 1)) ? NULL : coro_exit_stub, co[i].stacksz);
         co[i].status = ST_CREATED; co[i].caller = co[i].parent = -1;
     }
     co[MAINI].status = ST_RUNNING; co[MAINI].caller = co[MAINI].parent = -1; co[MAINI].csr = _mm_getcsr() & ~0x3fu;
@@ -291,7 +305,7 @@ static void co_gen(plan *p, uint64_t seed, const char *cfg)
     (void)cfg;
     vrng r; vrng_seed(&r, seed);
     const int n = 2 + (int)vrng_below(&r, 7);
-    plan_add(p, "INIT", 2, (int64_t)(n - 2), (int64_t)vrng_below(&r, 4));
+    plan_add(p, "INIT", 3, (int64_t)(n - 2), (int64_t)vrng_below(&r, 4), (int64_t)vrng_below(&r, 2));
     const int steps = 8 + (int)vrng_below(&r, vrng_chance(&r, 1, 5) ? 190 : 50);
     for (int i = 0; i < steps; i++) {
         const unsigned k = (unsigned)vrng_below(&r, 100);
